@@ -174,6 +174,28 @@ def run(res, tier, seed, shard, nshards):
             d.insert(rng.randrange(len(d) + 1), rng.randrange(0x80, 0x100))
         check_validator(res, W, bytes(d), "random")
 
+    # 3b. long strings with structure at block boundaries: an incomplete sequence ending exactly at (or next to) a
+    #     multiple of a power of two, a long ASCII run, then the continuation bytes.  A validator that processes the
+    #     input in blocks (fast paths for ASCII runs) is not a small DFA; the W-method does not cover it.
+    blocks = [64, 1024, 4096] if tier == "quick" else [16, 64, 256, 1024, 2048, 4096, 8192, 16384, 65536]
+    leads = [(b"\xc3", b"\xa9"), (b"\xe2\x82", b"\xac"), (b"\xe2", b"\x82\xac"), (b"\xf0\x9f", b"\x98\x80"), (b"\xf0", b"\x9f\x98\x80")]
+    li = 0
+    for B in blocks:
+        for head, tail in leads:
+            for off in (-1, 0, 1):
+                for run_blocks in (1, 2):
+                    li += 1
+                    if li % nshards != shard:
+                        continue
+                    pre = b"a" * (B + off - len(head))
+                    if len(pre) < 0:
+                        continue
+                    gap = b"b" * (B * run_blocks + (0 if off == 0 else -off))
+                    # ill-formed: ASCII bytes interrupt the sequence
+                    check_validator(res, W, pre + head + gap + tail, "block-structure")
+                    # well-formed control: the same bytes with the sequence kept together
+                    check_validator(res, W, pre + head + tail + gap, "block-structure")
+                    res.count("block_structure_strings", 2)
     # 4. receive path -----------------------------------------------------------
     recv_path(res, W, tier, rng, shard, nshards)
 
@@ -212,18 +234,20 @@ def recv_path(res, W, tier, rng, shard, nshards):
         cls = classify(data)
         for frags in fragmentations(data, 3):
             for skip in (False, True):
-                for path in ("text", "text-recv_data", "close"):
+                for path in ("text", "text-recv_data", "close", "close-3000", "close-4999", "close-1011"):
                     idx += 1
                     if idx % nshards != shard:
                         continue
-                    if path == "close" and len(frags) > 1:
+                    if path.startswith("close") and (len(frags) > 1 or len(data) > 123):
                         continue
                     one_recv_case(res, W, data, frags, skip, path, valid, cls)
 
 
 def one_recv_case(res, W, data, frags, skip, path, valid, cls):
-    if path == "close":
-        stream = R.encode(R.CLOSE, b"\x03\xe8" + data)
+    code = b"\x03\xe8"
+    if path.startswith("close"):
+        code = {"close": b"\x03\xe8", "close-3000": b"\x0b\xb8", "close-4999": b"\x13\x87", "close-1011": b"\x03\xf3"}[path]
+        stream = R.encode(R.CLOSE, code + data)
     else:
         stream = b""
         for i, f in enumerate(frags):
@@ -245,10 +269,10 @@ def one_recv_case(res, W, data, frags, skip, path, valid, cls):
     res.count("recv_cases")
     res.case(("recv", data, tuple(len(f) for f in frags), skip, path), nontrivial=any(b >= 0x80 for b in data))
     exc_name = type(val).__name__ if kind == "exc" else None
-    if path == "close":
+    if path.startswith("close"):
         must_accept = valid or skip
         if must_accept:
-            ok = kind == "value" and val[0] == R.CLOSE and bytes(val[1]) == b"\x03\xe8" + data
+            ok = kind == "value" and val[0] == R.CLOSE and bytes(val[1]) == code + data
         else:
             ok = kind == "exc" and isinstance(val, (W.WebSocketProtocolException, W.WebSocketPayloadException))
     elif path == "text":
